@@ -388,7 +388,7 @@ def make_configs(tier, seed):
 			out.append(key)
 	for a, i in FIXED_CONFIGS:
 		add(a, i)
-	reps = 1 if tier == "quick" else 24
+	reps = 1 if tier == "quick" else 10
 	r = gen.pyrng(ID, seed, "configs")
 	for rep in range(reps):
 		for A in range(1, 9):
@@ -601,8 +601,9 @@ def run_ohe_long(unit, rec):
 		if res is None:
 			# held: keep the evidence small (the string is regenerated from
 			# the seed; violations carry the full string)
-			rec.held(cls, dict(p, s=s[:40] + "...", L=L, unit_k=unit["k"],
-				it=it), nontrivial=ohe_nontrivial(s, i))
+			h = dict(p, s_prefix=s[:40], L=L, unit_k=unit["k"], it=it)
+			del h["s"]
+			rec.held(cls, h, nontrivial=ohe_nontrivial(s, i))
 			rec.count("ohe_roundtrips")
 			rec.maxv("max_string_length", L)
 			if bc:
@@ -620,7 +621,7 @@ def run_ohe_long(unit, rec):
 			if res is None:
 				rec.count("illegal_rejected")
 				rec.bulk_held("ohe-illegal" + ("-boundscheck" if bc else ""),
-					1, 0)
+					1, 1)
 			else:
 				report(rec, "ohe-illegal" + ("-boundscheck" if bc else ""),
 					dict(p, kind="illegal", pos=pos, ch=ch), res)
